@@ -533,6 +533,10 @@ def subst_index(val, pattern, actual):
 
 def term_getitem(it, base, idx, env, node):
     f = fname(base)
+    # B[i][j] == B[i, j] for loop indices i, j (rows walked one by one)
+    if f == "item" and isinstance(base.args[1], sp.Symbol) and str(base.args[1]).startswith("~i:") \
+            and isinstance(idx, sp.Symbol) and str(idx).startswith("~i:"):
+        return term_getitem(it, base.args[0], sp.Tuple(base.args[1], idx), env, node)
     # tabulate(base0, idxpattern, value, loopvar): read back an element
     if f == "tabulate":
         r = read_tabulate(it, base, idx)
